@@ -2,12 +2,16 @@ package mon
 
 import (
 	"fmt"
+	"hash/adler32"
+	"hash/crc32"
+	"hash/fnv"
 	"math/rand"
 	"os"
+	"sync"
 
-	"verif/cfg"
 	"path/filepath"
 	"strings"
+	"verif/cfg"
 
 	"verif/cli"
 	"verif/gen"
@@ -55,6 +59,17 @@ func checkC16(c *Ctx) error {
 			}
 			gen.Inject(r, conf, kind, j)
 			kinds = append(kinds, kind)
+		}
+		if i%13 == 8 && !many && len(hashTwins()) > 0 {
+			// a dangling name that collides with a declared one under a common 32-bit hash (FNV-1a, FNV-1, CRC-32, Adler-32,
+			// Java's 31-hash, djb2): a name is declared only if that very name is declared (round 13, S255)
+			tw := hashTwins()
+			p := tw[(i/13)%len(tw)]
+			conf.Params = append(conf.Params, cfg.KV{K: p[0], V: cfg.Int(1)}, cfg.KV{K: "usesTwinOf" + p[0], V: cfg.Str("<%" + p[1] + "%>")})
+			conf.Services = append(conf.Services, cfg.Service{Name: p[0], Constructor: cfg.P(`"fixt/pa".New`)},
+				cfg.Service{Name: "holdsTwinOf" + p[0], Constructor: cfg.P(`"fixt/pa".New`), Args: []cfg.Val{cfg.Str("@" + p[1])}})
+			kinds = append(kinds, "missing-param", "missing-service")
+			c.Add("configurations_with_hash_twins", 1)
 		}
 		if i%11 == 6 && !many {
 			// a configuration without any service (parameters and decorators only, e.g. one file of a larger setup validated on its
@@ -274,4 +289,48 @@ func checkC16(c *Ctx) error {
 		}
 	})
 	return nil
+}
+
+var hashTwinsOnce sync.Once
+var hashTwinsVal [][2]string
+
+// hashTwins: for each of six common 32-bit string hashes, two different plausible names with the same hash value.
+func hashTwins() [][2]string {
+	hashTwinsOnce.Do(func() {
+		fns := []func(string) uint32{
+			func(s string) uint32 { h := fnv.New32a(); h.Write([]byte(s)); return h.Sum32() },
+			func(s string) uint32 { h := fnv.New32(); h.Write([]byte(s)); return h.Sum32() },
+			func(s string) uint32 { return crc32.ChecksumIEEE([]byte(s)) },
+			func(s string) uint32 { return adler32.Checksum([]byte(s)) },
+			func(s string) uint32 {
+				var h uint32
+				for i := 0; i < len(s); i++ {
+					h = 31*h + uint32(s[i])
+				}
+				return h
+			},
+			func(s string) uint32 {
+				h := uint32(5381)
+				for i := 0; i < len(s); i++ {
+					h = h*33 + uint32(s[i])
+				}
+				return h
+			},
+		}
+		prefixes := []string{"repoPool", "storageService", "mailer", "db.conn", "cache-node"}
+		for _, f := range fns {
+			seen := map[uint32]string{}
+			found := false
+			for k := 0; k < 400000 && !found; k++ {
+				n := fmt.Sprintf("%s%d", prefixes[k%len(prefixes)], k/len(prefixes))
+				h := f(n)
+				if o, ok := seen[h]; ok && o != n {
+					hashTwinsVal = append(hashTwinsVal, [2]string{o, n})
+					found = true
+				}
+				seen[h] = n
+			}
+		}
+	})
+	return hashTwinsVal
 }
